@@ -773,8 +773,12 @@ keyword(vbi_link *ld, uint8_t *p, int column,
 	*back = 0;
 
 	if (isdigit(*s)) {
-		for (i = 0; isdigit(s[i]); i++)
-			ld->pgno = ld->pgno * 16 + (s[i] & 15);
+		for (i = 0; isdigit(s[i]); i++) {
+			/* More than three digits are no page number,
+			   do not let the value overflow. */
+			if (i < 3)
+				ld->pgno = ld->pgno * 16 + (s[i] & 15);
+		}
 
 		if (isdigit(s[-1]) || i > 3)
 			return i;
@@ -791,8 +795,10 @@ keyword(vbi_link *ld, uint8_t *p, int column,
 
 		s += i += 1;
 
-		for (ld->subno = j = 0; isdigit(s[j]); j++)
-			ld->subno = ld->subno * 16 + (s[j] & 15);
+		for (ld->subno = j = 0; isdigit(s[j]); j++) {
+			if (j < 2)
+				ld->subno = ld->subno * 16 + (s[j] & 15);
+		}
 
 		if (j > 1 || subno != ld->pgno || ld->subno > 0x99)
 			return i + j;
